@@ -383,7 +383,13 @@ class Path:
         conditions, e.g. operand ranges of bit operations)."""
         if isinstance(cond, bool):
             return cond
-        return self._check(z3.Not(zbool(cond))) == z3.unsat
+        e = cond if z3.is_expr(cond) else zbool(cond)
+        e = z3.simplify(e)
+        if z3.is_true(e):
+            return True
+        if z3.is_false(e):
+            return False
+        return self._check(z3.Not(e)) == z3.unsat
 
     # -- obligations
     def check(self, name, cond):
